@@ -392,6 +392,7 @@ impl System for Sys {
             }
         }
         v.push(Op::Tick(1));
+        v.push(Op::Tick(2));
         v.push(Op::Tick(3));
         if self.reopen_letter {
             v.push(Op::Reopen);
@@ -547,7 +548,7 @@ pub fn run(opts: &Opts) -> Vec<Report> {
             }
             r.bound = format!("every checkpoint step of every history of length <= {}: every labelled crash point and every byte prefix 0..=len of the checkpoint file, then recovery in a new store on the same directory (restore of every earlier and of the interrupted checkpoint), then a further checkpoint of a different state in the same millisecond and restore of every earlier checkpoint again", depth);
         } else {
-            r.bound = format!("all histories of length <= {} over put / put_with_ttl(2 ms) / update / delete / checkpoint / restore(any of the last 3 ids) / clock +1, +3 (no tick between two checkpoints = same millisecond){}; max_checkpoints {}", depth, if reopen { " / restart (drop the store, open a new one on the same directory)" } else { "" }, maxcp);
+            r.bound = format!("all histories of length <= {} over put / put_with_ttl(2 ms) / update / delete / checkpoint / restore(any of the last 3 ids) / clock +1, +2, +3 (no tick between two checkpoints = same millisecond){}; max_checkpoints {}", depth, if reopen { " / restart (drop the store, open a new one on the same directory)" } else { "" }, maxcp);
         }
         out.push(r);
     }
